@@ -7,6 +7,7 @@
 package refbundle
 
 import (
+	"strings"
 	"bytes"
 	"encoding/binary"
 	"fmt"
@@ -414,5 +415,34 @@ func Strict(b []byte) (*Parsed, error) {
 	if len(used) != len(spans) {
 		return p, fmt.Errorf("%d responses in the responses array, %d referenced by the index", len(spans), len(used))
 	}
+	// b1: an index value with a variants-value lists one location per possible Variant-Key, i.e.
+	// the product of the numbers of available values of its axes (draft: "the number of
+	// location pairs must equal the number of possible keys")
+	for _, e := range p.Index {
+		if p.Version != "b1" || len(e.Variants) == 0 {
+			continue
+		}
+		keys, ok := PossibleKeys(string(e.Variants))
+		if !ok {
+			return p, fmt.Errorf("index entry %q: variants-value %q is not a list of axes with available values", e.RawURL, e.Variants)
+		}
+		if keys != len(e.Locs) {
+			return p, fmt.Errorf("index entry %q: variants-value %q has %d possible key(s) but the entry lists %d location(s)", e.RawURL, e.Variants, keys, len(e.Locs))
+		}
+	}
 	return p, nil
+}
+
+// PossibleKeys counts the possible Variant-Keys of a Variants value "axis;v1;v2, axis2;w1": the
+// product of the numbers of available values (an axis without values makes it 0).
+func PossibleKeys(variants string) (int, bool) {
+	n := 1
+	for _, member := range strings.Split(variants, ",") {
+		parts := strings.Split(strings.TrimSpace(member), ";")
+		if len(parts) == 0 || strings.TrimSpace(parts[0]) == "" {
+			return 0, false
+		}
+		n *= len(parts) - 1
+	}
+	return n, true
 }
